@@ -1288,7 +1288,7 @@ class StmtMixin(object):
         unless full=True: leaving hypotheses out can only keep more paths (sound), and keeps these checks fast."""
         s = z3.Solver(); s.set('timeout', 2000 if not full else 1500)
         from .solve import guarded
-        s.add(*guarded([f for f in st.pc if full or not _has_quantifier(f)]))      # (nth on lists of str: see solve.guard_nested_nth)
+        s.add(*guarded([f for f in st.pc if full or not _has_quantifier(f)]))      # (no sequences of sequences in queries: pyvc/unnest.py)
         return s.check() != z3.unsat
 
     def st_Raise(self, s, st):
